@@ -128,9 +128,12 @@ def main():
         threeD = bool(rng.random() < 0.3)
         if F.sum() > 0:
             if threeD:
-                F3 = np.stack([np.zeros_like(F), F])
+                F3 = np.stack([rng.integers(0, 9, size=F.shape).astype(float), F])      # another field in the slice that is NOT asked for
                 Z, Y3, X3 = np.meshgrid(np.array([1.0, 2.0]), np.arange(ny) * 3.0, np.arange(nx) * 2.0, indexing="ij")
-                lvl, area = extract_percentile_contour(F3, (X3, Y3, Z), pct=pn / pd, level=1)
+                # the coordinates of a 3-D field as the solver returns them (3-D), as 2-D maps, or as axis vectors
+                form3 = int(rng.integers(3))
+                grid3 = (X3, Y3, Z) if form3 == 0 else (X3[0], Y3[0], np.array([1.0, 2.0])) if form3 == 1 else (np.arange(nx) * 2.0, np.arange(ny) * 3.0, np.array([1.0, 2.0]))
+                lvl, area = extract_percentile_contour(F3, grid3, pct=pn / pd, level=1)
             else:
                 lvl, area = extract_percentile_contour(F, (X, Y, np.zeros_like(X)), pct=pn / pd)
             K = area / 6.0
